@@ -586,6 +586,11 @@ impl<'a> TxV<'a> {
                     // default argument: evaluated in the callee's declaration context (globals only), converted to the parameter type
                     let d = p.args().get(3)?;
                     let mut dfr = Frame { vals: HashMap::new(), types: HashMap::new(), ret: Ty::Void, this: None };
+                    // C++ / HLSL: the parameters declared so far (this one included) are in scope in a default argument and hide
+                    // globals of their name; they have no value there (using one is ill-formed): a mention reads nothing
+                    for q in &params[..=i] {
+                        dfr.types.insert(q.args()[0].atom().to_string(), self.ty(&q.args()[2])?);
+                    }
                     vals.push(self.eval_as(&pt, d, &mut dfr, gl, depth)?);
                     places.push(None);
                 }
